@@ -221,3 +221,41 @@ def eval_sphere(case):
     except Exception as e:
         out.append(({"cls": "Sphere", "obs": "compute_form_factor_amplitude", "tags": ["raised"], "msg": f"raised {type(e).__name__}: {e}"}, {"case": case}))
     return out, {}
+
+
+def eval_sphere_series(rec):
+    """Sphere records of spec/Curved.tla: the amplitude at |q| R = x for small and moderate rational x (alternating series with
+    remainder below 1e-25), along rational directions, with the phase of the centre."""
+    import numpy as np
+    from . import curved_eval
+    from .terms import ev
+    out = []
+    try:
+        S, env, ax, c = curved_eval.build(rec)
+    except Exception as e:
+        return [({"cls": "Sphere", "obs": "construct", "tags": [], "msg": str(e)}, {"case": rec})], {}
+    R = float(ax[0])
+    V = 4 / 3 * math.pi * R ** 3
+    dirs = [(1, 0, 0), (0, 0, -1), (0.6, 0.8, 0), (2 / 3, -2 / 3, 1 / 3)]
+    qs, want, xs = [], [], []
+    for w in rec["ffsmall"]:
+        x = float(ev(w["x"], env))
+        amp = float(ev(w["amp"], env))
+        for d in dirs:
+            q = np.array(d, dtype=float) * x / R
+            qs.append(q)
+            want.append(amp * cmath.exp(-1j * float(np.dot(q, c))))
+            xs.append(x)
+    qs, want = np.array(qs), np.array(want)
+    tags = curved_eval.curved_tags(rec)
+    try:
+        got = np.asarray(S.compute_form_factor_amplitude(qs))
+        if got.shape != want.shape or not np.all(np.isfinite(got)) or np.max(np.abs(got - want)) > TOL * V:
+            k = int(np.argmax(np.abs(got - want))) if got.shape == want.shape else 0
+            out.append(({"cls": "Sphere", "obs": "compute_form_factor_amplitude", "tags": tags + ["series_x"],
+                         "msg": f"|q| R = {xs[k]!r}: returned {got[k] if got.shape == want.shape else got.shape}, exact {want[k]} "
+                                f"(relative error {abs(got[k] - want[k]) / V:.2e} of V)"}, {"case": rec}))
+    except Exception as e:
+        out.append(({"cls": "Sphere", "obs": "compute_form_factor_amplitude", "tags": tags + ["raised"], "msg": f"raised {type(e).__name__}: {e}"},
+                    {"case": rec}))
+    return out, {}
